@@ -110,7 +110,7 @@ fn fam_space(f: Arc<dyn Family>, nallowed: u64) -> Box<dyn Space> {
 /// with 48: all; with 18: the 16 subsets of {5,7,9,10} + full ∪ {6} + full ∪ {0,11,65535}
 fn pick_allowed(k: u64, n: u64) -> usize {
     if n == 48 {
-        k as usize
+        k as usize // (the 16 aliasing sets of menu::allowed_set are C12's)
     } else if n == 6 {
         [15usize, 0, 4, 8, 16 + 15, 32 + 15][k as usize]
     } else if k < 16 {
